@@ -209,7 +209,8 @@ CHECKS = {
         text='Theorems: the one-image theorem - on a regular NCCH (a decidable predicate readGeomB: the six regions stay apart, '
              'every chunk lies inside its section\'s plaintext, the header is chunk 0; evaluated on every generated image - all of '
              'them meet it) EVERY read of the fully-decrypted view, '
-             'at any offset and length (inside a chunk, straddling sections, over gaps, to the end), is the corresponding slice of '
+             'at any offset and for any requested size (inside a chunk, straddling sections, over gaps, to the end, negative or past the '
+             'end: clamped), is the corresponding slice of '
              'one image, hence equal to the slice of a whole-image read; proved through a plan theorem (the planned pieces stand '
              'for exactly the chunks of the aligned request, in order, each once, keys unique, last piece = last chunk) and an '
              'assembly theorem (first piece loses the leading bytes, last piece the trailing ones); chunk classifier facts, header '
@@ -217,8 +218,8 @@ CHECKS = {
              'execution of seek/read histories centred on section and chunk boundaries, with the monitor = slice of the '
              'independent specification image, the declared size, and a key-less re-parse compared section by section.',
         note=COMMON_NOTE + 'get_data = slice of the section plaintext (plain window, CTR-decrypted window, two-key ExeFS '
-             'concatenation) is a theorem (C04_section_sources), so the one-image theorem has only decidable hypotheses; reads clamped '
-             'at the content size are covered by correspondence; builder is the trusted specification.',
+             'concatenation) is a theorem (C04_section_sources), so the one-image theorem has only decidable hypotheses; the key-free re-parse is '
+             'covered by correspondence; builder is the trusted specification.',
         technique='Lean 4 proof (plan/assembly theorems, one-image theorem) + model/implementation correspondence with metamorphic re-parse',
         design='§4 C04'),
     'C05': dict(
